@@ -62,13 +62,16 @@ META = {
              "a class trait (same or flipped metadata), remove_trait, remove_trait + add_trait, "
              "remove_trait of a class trait, add_trait of a new name (trait_added); operations that "
              "meet the structural condition of one of three open findings put the rest of their "
-             "history under that finding's mechanism key; (5) a 4-thread add/remove stress.  distinct_nontrivial counts distinct "
+             "history under that finding's mechanism key; (5) a 4-thread add/remove stress; (6) 'gcpoints', ENUMERATED: 4 victim kinds (owner of a bound-method handler, plain or HasTraits; the observed root; both) x 8 expressions x 5 operations (matched leaf change, link change, container mutation, registration / unregistration of another handler): the victims are cyclic garbage, automatic collection is off, and the operation is re-run on a fresh twin with gc.collect() injected before the k-th statement executed inside the traits package (sys.monitoring LINE events) for EVERY k; judged: nothing raised or reported, call counts of the surviving handlers equal to the twin's, victims dead, and afterwards one call per matched change for survivors, none for the dead, registrations made during the collection removable exactly once.  distinct_nontrivial counts distinct "
              "(stratum, op, expression shape, handler kind, dispatch, count class, outcome class, "
              "failure-position class) signatures of steps in which a registration changed, a call was "
              "observed, an exception was raised or an object died."),
     "phases": [{"name": "main", "flavour": "P", "shards": 16}],
     "gates": {
-        "quick": {"evaluations": 200000, "probe_checks": 200000, "adds_ok": 2500, "removes_ok": 2000,
+        "quick": {"gcpoint_runs": 40000, "gcpoint_effective": 30000, "gcpoint_afterwards_checked": 40000,
+                  "gcpoint_victims_died": 40000, "gcpoint_registrations_during_collection": 8000,
+                  "gcpoint_removals_during_collection": 15000, "gcpoint_distinct_effective_lines": 2000,
+                  "evaluations": 200000, "probe_checks": 200000, "adds_ok": 2500, "removes_ok": 2000,
                   "failed_adds_checked": 1000, "failed_adds_held_first_path": 500,
                   "failed_removes_checked": 1000, "failpos_cases": 500, "failpos_sibling_cases": 250,
                   "zero_census_checks": 2000, "calls_observed": 8000, "ui_queued_calls": 300,
@@ -81,7 +84,10 @@ META = {
                   "redefinitions_while_registered": 500, "redefinitions/readd": 60,
                   "redefinitions/over-class": 60, "redefinitions/remove+add": 60,
                   "redefinitions/add-new": 150},
-        "thorough": {"evaluations": 5000000, "probe_checks": 5000000, "adds_ok": 80000,
+        "thorough": {"gcpoint_runs": 40000, "gcpoint_effective": 30000, "gcpoint_afterwards_checked": 40000,
+                  "gcpoint_victims_died": 40000, "gcpoint_registrations_during_collection": 8000,
+                  "gcpoint_removals_during_collection": 15000, "gcpoint_distinct_effective_lines": 2000,
+                  "evaluations": 5000000, "probe_checks": 5000000, "adds_ok": 80000,
                      "removes_ok": 80000, "failed_adds_checked": 20000,
                      "failed_adds_held_first_path": 10000, "failed_removes_checked": 40000,
                      "failpos_cases": 8000, "failpos_sibling_cases": 4000, "zero_census_checks": 60000,
@@ -2521,6 +2527,9 @@ def run(ctx):
     gc.freeze()          # the interpreter's own objects: keeps the many gc.collect() calls cheap
     try:
         _run(ctx)
+        # stratum "gcpoints": a collection before every statement of one operation
+        from vf.monitors import _c09_gcpoints
+        _c09_gcpoints.run(ctx)
     finally:
         WORKER.stop()
         gc.unfreeze()
